@@ -1,0 +1,86 @@
+//! Observation hooks for external verification harnesses.
+//!
+//! Only compiled with `--cfg virtio_drivers_verif`. Each hook is called *after* the store or fence
+//! it announces, or inside a busy-wait loop, and carries no values: the harness reads queue memory
+//! itself, so what it logs is what a device would see at that instant.
+
+extern crate std;
+
+use core::cell::RefCell;
+use std::boxed::Box;
+
+/// A device-visible part of a virtqueue which the driver writes to.
+#[derive(Copy, Clone, Debug, Eq, PartialEq)]
+pub enum Area {
+    /// An entry of the descriptor table.
+    Desc,
+    /// A slot of the available ring.
+    AvailRing,
+    /// The `idx` field of the available ring.
+    AvailIdx,
+    /// The `flags` field of the available ring.
+    AvailFlags,
+    /// The `used_event` field of the available ring.
+    UsedEvent,
+}
+
+/// Something the driver just did which a device might observe.
+#[derive(Copy, Clone, Debug, Eq, PartialEq)]
+pub enum Event {
+    /// The driver has just stored to the given location of the given queue.
+    Store {
+        /// The index of the queue.
+        queue: u16,
+        /// Which area of the queue was written.
+        area: Area,
+        /// The index within the area (0 for scalar fields).
+        index: u16,
+    },
+    /// The driver has just executed its write barrier in `add`.
+    Fence {
+        /// The index of the queue.
+        queue: u16,
+    },
+    /// The driver is busy-waiting for the device.
+    Spin {
+        /// Which loop is spinning.
+        site: &'static str,
+        /// The index of the queue being waited on.
+        queue: u16,
+    },
+}
+
+type Hook = Box<dyn FnMut(&Event)>;
+
+std::thread_local! {
+    static HOOK: RefCell<Option<Hook>> = const { RefCell::new(None) };
+}
+
+/// Installs (or removes) the hook for the current thread.
+pub fn set_hook(hook: Option<Hook>) {
+    HOOK.with(|h| *h.borrow_mut() = hook);
+}
+
+/// Calls the current thread's hook, if any.
+pub fn emit(event: Event) {
+    HOOK.with(|h| {
+        // Take the hook out while it runs so that a panic inside it (used by harnesses to unwind
+        // out of a busy-wait loop) or a nested emit can't leave the cell borrowed.
+        let hook = h.borrow_mut().take();
+        if hook.is_some() {
+            struct Restore<'a>(&'a RefCell<Option<Hook>>, Option<Hook>);
+            impl Drop for Restore<'_> {
+                fn drop(&mut self) {
+                    let mut slot = self.0.borrow_mut();
+                    if slot.is_none() {
+                        *slot = self.1.take();
+                    }
+                }
+            }
+            let mut restore = Restore(h, hook);
+            if let Some(hook) = restore.1.as_mut() {
+                hook(&event);
+            }
+        }
+    });
+}
